@@ -82,22 +82,24 @@ Qed.
 
 Theorem validate_data_exact d noff :
   validate_data d noff = DOk <->
-  (exists c, d = Single (SrcRV c) /\ noff = 0) \/
+  (d = Single (SrcRV false) /\ noff = 0) \/
   (exists srcs, d = Many srcs /\ Forall (fun s => s = SrcRV false) srcs /\ length srcs = S noff).
 Proof.
   destruct d as [s|srcs]; cbn [validate_data].
   - destruct s as [c|].
-    + destruct (Nat.eqb noff 0) eqn:E.
-      * apply Nat.eqb_eq in E. split; [intros _; left; exists c; auto|reflexivity].
-      * apply Nat.eqb_neq in E. split; [discriminate|]. intros [(c' & _ & H)|(srcs & H & _)]; [lia|discriminate].
-    + split; [discriminate|]. intros [(c' & H & _)|(srcs & H & _)]; discriminate.
+    + destruct (Nat.eqb noff 0) eqn:E; cbn [negb].
+      * apply Nat.eqb_eq in E. destruct c.
+        -- split; [discriminate|]. intros [[H _]|(srcs & H & _)]; discriminate.
+        -- split; [intros _; left; auto|reflexivity].
+      * apply Nat.eqb_neq in E. split; [discriminate|]. intros [[_ H]|(srcs & H & _)]; [lia|discriminate].
+    + split; [discriminate|]. intros [[H _]|(srcs & H & _)]; discriminate.
   - destruct srcs as [|s0 r].
-    + split; [discriminate|]. intros [(c' & H & _)|(srcs & H & _ & Hl)]; [discriminate|]. injection H as <-. cbn in Hl. lia.
+    + split; [discriminate|]. intros [[H _]|(srcs & H & _ & Hl)]; [discriminate|]. injection H as <-. cbn in Hl. lia.
     + destruct (first_bad (s0 :: r)) as [e|] eqn:E.
-      * split; [discriminate|]. intros [(c' & H & _)|(srcs & H & Hall & _)]; [discriminate|]. injection H as <-.
+      * split; [discriminate|]. intros [[H _]|(srcs & H & Hall & _)]; [discriminate|]. injection H as <-.
         apply first_bad_none in Hall. congruence.
       * apply first_bad_none in E. destruct (Nat.eqb (length (s0 :: r) - 1) noff) eqn:El.
         -- apply Nat.eqb_eq in El. split; [intros _; right; exists (s0 :: r); repeat split; [exact E|cbn in *; lia]|reflexivity].
-        -- apply Nat.eqb_neq in El. split; [discriminate|]. intros [(c' & H & _)|(srcs & H & _ & Hl)]; [discriminate|].
+        -- apply Nat.eqb_neq in El. split; [discriminate|]. intros [[H _]|(srcs & H & _ & Hl)]; [discriminate|].
            injection H as <-. cbn in *. lia.
 Qed.
